@@ -37,22 +37,39 @@ class Render(object):
         self.binds = {}       # key -> (line, col)
         self.layout = layout
         self.n = 0
+        self.inline = None       # oneline layout: number of statements already put after the colon of the last header
+        self.last_simple = None
 
     def key(self):
         self.n += 1
         return self.n
 
-    def emit(self, indent, frags):
-        """frags: str | ('r', key) | ('b', key); the tracked name is written at r / b fragments"""
+    def emit(self, indent, frags, simple=False):
+        """frags: str | ('r', key) | ('b', key); the tracked name is written at r / b fragments.
+        layouts: plain (4 spaces) | wide (8 spaces, blank lines, comments) | broken (line break after the first open bracket) |
+        semi (consecutive simple statements joined by ';') | oneline (a body of simple statements follows the colon)"""
         ind = ' ' * (indent * (4 if self.layout != 'wide' else 8))
-        text = ind
+        if self.inline is not None and simple:
+            # continue the header line (oneline) 
+            text = self.lines.pop() + (' ' if self.inline == 0 else '; ')
+            self.inline += 1
+        elif self.layout == 'semi' and simple and self.last_simple == (indent, len(self.lines)) and self.lines:
+            text = self.lines.pop() + '; '
+        else:
+            text = ind
+        broke = False
         for f in frags:
             if isinstance(f, tuple):
                 (self.reads if f[0] == 'r' else self.binds)[f[1]] = (len(self.lines) + 1, len(text))
                 text += 'a'
             else:
                 text += f
+                if self.layout == 'broken' and not broke and f.endswith('(') and f is not frags[-1]:
+                    self.lines.append(text)
+                    text = ind + ' ' * 6
+                    broke = True
         self.lines.append(text)
+        self.last_simple = (indent, len(self.lines)) if simple else None
         if self.layout == 'wide':
             self.lines.append('')
             self.lines.append(ind + '# comment')
@@ -131,9 +148,22 @@ def eval_test(S, I, rk, bk):
     return S
 
 
+def is_simple(st):
+    return st[0] in ('U', 'BU') or (st[0] == 'B' and st[1] not in ('def', 'class'))
+
+
 def body_or_pass(stmts, S, I, R, indent):
+    if R.layout == 'oneline' and R.inline is None and all(is_simple(st) for st in stmts):
+        R.inline = 0
+        try:
+            if not stmts:
+                R.emit(indent, ['pass'], simple=True)
+                return S
+            return run_stmts(stmts, S, I, R, indent)
+        finally:
+            R.inline = None
     if not stmts:
-        R.emit(indent, ['pass'])
+        R.emit(indent, ['pass'], simple=True)
         return S
     return run_stmts(stmts, S, I, R, indent)
 
@@ -142,31 +172,31 @@ def run_stmt(st, S, I, R, indent):
     kind = st[0]
     if kind == 'U':
         k = R.key()
-        R.emit(indent, ['use(', ('r', k), ')'])
+        R.emit(indent, ['use(', ('r', k), ')'], simple=True)
         return I.read(S, k)
     if kind == 'BU':
         kr, kb = R.key(), R.key()
-        R.emit(indent, [('b', kb), ' = f(', ('r', kr), ')'])
+        R.emit(indent, [('b', kb), ' = f(', ('r', kr), ')'], simple=True)
         return I.bind(I.read(S, kr), kb)
     if kind == 'B':
         fl = st[1]
         k = R.key()
         if fl == 'assign':
-            R.emit(indent, [('b', k), ' = new()'])
+            R.emit(indent, [('b', k), ' = new()'], simple=True)
         elif fl == 'annassign':
-            R.emit(indent, [('b', k), ': int = new()'])
+            R.emit(indent, [('b', k), ': int = new()'], simple=True)
         elif fl == 'tuple':
-            R.emit(indent, ['(zz, ', ('b', k), ') = new()'])
+            R.emit(indent, ['(zz, ', ('b', k), ') = new()'], simple=True)
         elif fl == 'starred':
-            R.emit(indent, ['zz, *', ('b', k), ' = new()'])
+            R.emit(indent, ['zz, *', ('b', k), ' = new()'], simple=True)
         elif fl == 'chained':
-            R.emit(indent, ['zz = ', ('b', k), ' = new()'])
+            R.emit(indent, ['zz = ', ('b', k), ' = new()'], simple=True)
         elif fl == 'import':
-            R.emit(indent, ['import os as ', ('b', k)])
+            R.emit(indent, ['import os as ', ('b', k)], simple=True)
         elif fl == 'fromimport':
-            R.emit(indent, ['from os import path as ', ('b', k)])
+            R.emit(indent, ['from os import path as ', ('b', k)], simple=True)
         elif fl == 'walrus-stmt':
-            R.emit(indent, ['use((', ('b', k), ' := new()))'])
+            R.emit(indent, ['use((', ('b', k), ' := new()))'], simple=True)
         elif fl == 'def':
             R.emit(indent, ['def ', ('b', k), '(): pass'])
         elif fl == 'class':
@@ -192,7 +222,7 @@ def run_stmt(st, S, I, R, indent):
         R.emit(indent, ['while '] + frags + [':'])
         # the body is rendered once; it is interpreted up to two times
         mark = len(R.lines)
-        snap = (dict(R.reads), dict(R.binds), R.n)
+        snap = (dict(R.reads), dict(R.binds), R.n, R.lines[-1], R.last_simple)
         exits = set()
         S = eval_test(S, I, rk, bk)
         exits |= S
@@ -201,6 +231,7 @@ def run_stmt(st, S, I, R, indent):
                 # re-interpret the same rendered body: restore the renderer so that keys and positions repeat
                 del R.lines[mark:]
                 R.reads, R.binds, R.n = dict(snap[0]), dict(snap[1]), snap[2]
+                R.lines[mark - 1], R.last_simple = snap[3], snap[4]
             S = body_or_pass(body, set(S), I, R, indent + 1)
             S = eval_test(S, I, rk, bk)
             exits |= S
@@ -232,12 +263,13 @@ def run_stmt(st, S, I, R, indent):
         if kr is not None:
             S = I.read(S, kr)
         mark = len(R.lines)
-        snap = (dict(R.reads), dict(R.binds), R.n)
+        snap = (dict(R.reads), dict(R.binds), R.n, R.lines[-1], R.last_simple)
         exits = set(S)
         for trip in range(2):
             if trip:
                 del R.lines[mark:]
                 R.reads, R.binds, R.n = dict(snap[0]), dict(snap[1]), snap[2]
+                R.lines[mark - 1], R.last_simple = snap[3], snap[4]
             if kt is not None:
                 S = I.bind(S, kt)
             S = body_or_pass(body, set(S), I, R, indent + 1)
@@ -443,6 +475,78 @@ def check_program(prog, wrap, layout, prop, path, tag):
     return n
 
 
+LAYOUTS = ('plain', 'wide', 'broken', 'semi', 'oneline')
+
+
+def render(prog, wrap, layout):
+    R = Render(layout)
+    ind = 0
+    if wrap == 'function':
+        R.emit(0, ['def F(p):'])
+        ind = 1
+    elif wrap == 'class':
+        R.emit(0, ['class K:'])
+        ind = 1
+    run_stmts(prog, {UNBOUND}, Interp(False), R, ind)
+    return R
+
+
+def layout_view(R, wrap):
+    """what supp says about the program, expressed in rendering-order keys (layout independent)"""
+    text = R.text()
+    diags, at = analyse(text, wrap)
+    pos_key = {}
+    for k, pos in R.reads.items():
+        pos_key[tuple(pos)] = ('read', k)
+    for k, pos in R.binds.items():
+        pos_key[tuple(pos)] = ('bind', k)
+    view = {}
+    for rk, pos in R.reads.items():
+        state, defs, undef = at.get(tuple(pos), ('missing', set(), False))
+        view[rk] = (state, frozenset(site_of(d, R.binds) for d in defs), undef)
+    dg = [(d[0], d[1], pos_key.get((d[2], d[3]), 'other')) for d in diags if d[1].endswith(': a')]
+    return text, view, dg
+
+
+LAYOUT_REPLAY = '''import sys; sys.path.insert(0, %(repo)r)
+from supp.linter import lint
+from supp.project import Project
+a, b = %(a)r, %(b)r
+p = Project(['/nonexistent'])
+da, db = [d[:2] for d in lint(p, a)], [d[:2] for d in lint(p, b)]
+print(a); print(da); print(b); print(db)
+print(%(verdict)r)
+'''
+
+
+def check_layouts(prog, wrap, path):
+    """C13: the same program in five layouts gives the same diagnostics and the same definitions at corresponding reads"""
+    base = None
+    for layout in LAYOUTS:
+        R = render(prog, wrap, layout)
+        try:
+            ast.parse(R.text())
+        except SyntaxError:
+            if layout == 'plain':
+                return
+            prove('layout-%s-renders' % layout, False, kind='lemma', clause='checker: the %s layout of a program does not parse:\n%s' % (layout, R.text()), path=path)
+            continue
+        text, view, dg = layout_view(R, wrap)
+        if layout == 'plain':
+            base = (text, view, dg)
+            continue
+        same = view == base[1] and dg == base[2]
+        if not same:
+            diff = [k for k in view if view[k] != base[1].get(k)]
+            core.RUN.concretise = lambda model, ob, a=base[0], b=text: {'input': {'plain': a, 'other': b}, 'script': LAYOUT_REPLAY % {
+                'repo': core.REPO, 'a': a, 'b': b, 'verdict': 'REPRODUCED: the two layouts of one program are analysed differently'}}
+        prove('same-as-plain:%s' % layout, same,
+              clause='diagnostics and definitions at corresponding reads do not depend on the layout%s' % (
+                  '' if same else ' [reads %r: plain %r, %s %r; diagnostics %r vs %r]\n%s\n%s' % (
+                      diff, [base[1].get(k) for k in diff], layout, [view[k] for k in diff], base[2], dg, base[0], text)), path=path)
+        core.RUN.concretise = None
+
+
 # ---------------------------------------------------------------------------
 # enumeration
 
@@ -574,6 +678,11 @@ def make(kind):
             n = 0
             for depth in (1, 2):
                 for i, prog in enumerate(programs(kind, depth)):
+                    if prop == 'C13':
+                        if depth == 1 or i % 5 == 0:
+                            run.case = '%s-depth%d-%d-function' % (kind, depth, i)
+                            check_layouts(prog, 'function', path)
+                        continue
                     for wrap in ('module', 'function'):
                         run.case = '%s-depth%d-%d-%s' % (kind, depth, i, wrap)
                         n += check_program(prog, wrap, 'plain', prop, path, 'agrees')
@@ -589,15 +698,20 @@ def make(kind):
 
 
 for _k in KINDS:
-    harness(['C01', 'C02', 'C03'], 'supp.nast.extract_scope + Flow.names_at + lint [whole programs, outer %s]' % _k, bounded=BOUND)(make(_k))
+    harness(['C01', 'C02', 'C03', 'C13'], 'supp.nast.extract_scope + Flow.names_at + lint [whole programs, outer %s]' % _k, bounded=BOUND)(make(_k))
 
 
-@harness(['C01', 'C02', 'C03'], 'supp.nast.extract_scope + Flow.names_at + lint [whole programs, binding flavours]', bounded=BOUND)
+@harness(['C01', 'C02', 'C03', 'C13'], 'supp.nast.extract_scope + Flow.names_at + lint [whole programs, binding flavours]', bounded=BOUND)
 def composition_flavours(run):
     """BOUNDED stand-in for the composition lemma: every binding flavour; not counted as proved"""
     def go(path):
         prop = core.RUN.prop
         for i, prog in enumerate(flavour_programs()):
+            if prop == 'C13':
+                for wrap in ('module', 'function'):
+                    run.case = 'flavour-%d-%s' % (i, wrap)
+                    check_layouts(prog, wrap, path)
+                continue
             for wrap in ('module', 'function', 'class'):
                 run.case = 'flavour-%d-%s' % (i, wrap)
                 check_program(prog, wrap, 'plain', prop, path, 'agrees')
